@@ -20,7 +20,7 @@ func init() {
 	})
 	register(&Property{
 		ID:       "C14",
-		Patterns: []string{"./font/encoding/simpleenc", "./font/cmap", "./font/encoding", "./graphics/extract", "./font/dict", "./graphics/content/builder"},
+		Patterns: []string{"./font/encoding/simpleenc", "./font/cmap", "./font/encoding", "./graphics/extract", "./font/dict", "./graphics/content/builder", "./font/encoding/cidenc"},
 		Run:      runC14,
 		Explanation: "Narrow static rules on glyph-code allocation and ToUnicode compression: (R3) in simpleenc.Encode a code is chosen only among codes that are not in use — every assignment of the chosen code inside the search loop is dominated by the miss edge of the in-use lookup of that code — the (glyph, text) pair is rejected if it already has a code, the table-full exit precedes the search, and the chosen code is what both tables record; so distinct (glyph, text) pairs can never share a code; " +
 			"(R7) ToUnicode range compression compares every adjacent pair in full (shared with C13). Decides these structural conditions for all strings and orders of use; everything value-level (widths, ToUnicode contents, the 18 font kinds end to end, sibling Codes implementations) is NOT decided.",
@@ -53,6 +53,7 @@ func runC14(c *core.Ctx) {
 	ruleDifferencesArray(c)
 	ruleSimpleCodesSiblings(c)
 	ruleFontSelectionIdentity(c)
+	ruleWidthsTrimming(c)
 }
 
 const cmapPkg = "pdf/font/cmap"
@@ -941,5 +942,83 @@ func ruleRangePositionIndex(c *core.Ctx) {
 				return true
 			})
 		}
+	})
+}
+
+// ruleWidthsTrimming (C14-R10): the reader gives every code that is not
+// covered by /FirstChar../LastChar the /MissingWidth (default) width.  The
+// writer may therefore leave a code out at either end of the range only if
+// the code is unmapped or its width IS the default; in particular a mapped
+// glyph with advance 0 (a combining mark) must stay when the default is not
+// 0.  The conditions of the two trimming loops imply "unmapped or default
+// width" (path-condition implication).
+func ruleWidthsTrimming(c *core.Ctx) {
+	const pk = "pdf/font/dict"
+	c.Check("C14-R10", pk+".setSimpleWidths/trim", "a code is trimmed from /Widths only if it is unmapped or has the default width", func(o *core.Ob) {
+		fn := c.Prog.Func(pk, "setSimpleWidths")
+		info := fn.Info()
+		ww := paramObj(fn, "ww")
+		enc := paramObj(fn, "enc")
+		def := paramObj(fn, "defaultWidth")
+		n := 0
+		ast.Inspect(fn.Decl.Body, func(m ast.Node) bool {
+			fs, ok := m.(*ast.ForStmt)
+			if !ok || fs.Cond == nil || len(fs.Body.List) != 1 {
+				return true
+			}
+			inc, ok := fs.Body.List[0].(*ast.IncDecStmt)
+			if !ok {
+				return true
+			}
+			k, ok := ast.Unparen(inc.X).(*ast.Ident)
+			if !ok {
+				return true
+			}
+			n++
+			o.Count(1)
+			o.At(fn.Site(fs, "trims "+k.Name))
+			spec := &ast.BinaryExpr{
+				X:  &ast.BinaryExpr{X: &ast.CallExpr{Fun: identUse(fn, enc), Args: []ast.Expr{k}}, Op: token.EQL, Y: &ast.BasicLit{Kind: token.STRING, Value: `""`}},
+				Op: token.LOR,
+				Y:  &ast.BinaryExpr{X: &ast.IndexExpr{X: identUse(fn, ww), Index: k}, Op: token.EQL, Y: identUse(fn, def)},
+			}
+			holds, counter, decided := c.Prog.Implies(core.Formula{Fn: fn, Atoms: []core.Atom{{Expr: fs.Cond}}}, core.Formula{Fn: fn, Atoms: []core.Atom{{Expr: spec}}})
+			if !decided {
+				core.Undecided("trimming condition not decided: %s", counter)
+			}
+			if !holds {
+				o.FailAt(fn.Site(fs, ""), "%s: the loop drops a code from /Widths although it is mapped and its width differs from the default (%s): it reads back with /MissingWidth", c.Prog.Pos(fs.Pos()), counter)
+			}
+			_ = info
+			return true
+		})
+		o.Require(n == 2, "expected the two trimming loops (LastChar, FirstChar), found %d", n)
+	})
+	// composite UTF-8 encoder: occupancy of a code is tested under the key it is stored under
+	const ce = "pdf/font/encoding/cidenc"
+	c.Check("C14-R10", ce+".compositeUTF8/code-keys", "the table of allocated codes is indexed by packed character codes only, never by a rune value converted to the code type (the two differ for every non-ASCII rune)", func(o *core.Ob) {
+		pkg := c.Prog.Pkg(ce)
+		n := 0
+		for _, fn := range c.Prog.Funcs(pkg) {
+			info := fn.Info()
+			ast.Inspect(fn.Decl.Body, func(m ast.Node) bool {
+				call, ok := m.(*ast.CallExpr)
+				if !ok || len(call.Args) != 1 {
+					return true
+				}
+				tv, ok := info.Types[call.Fun]
+				if !ok || !tv.IsType() || !strings.HasSuffix(core.TypeString(tv.Type), "charcode.Code") {
+					return true
+				}
+				n++
+				o.Count(1)
+				at := info.TypeOf(call.Args[0])
+				if b, ok := at.Underlying().(*types.Basic); ok && b.Kind() == types.Int32 {
+					o.FailAt(fn.Site(call, ""), "%s: %s converts a rune to a character code; codes are the packed UTF-8 bytes (runeToCode), so for non-ASCII runes this is a different key than the one the entry is stored under", c.Prog.Pos(call.Pos()), c.Prog.Src(call))
+				}
+				return true
+			})
+		}
+		o.Require(n >= 1, "no conversions to charcode.Code found")
 	})
 }
